@@ -73,11 +73,12 @@ Record tsk := mkSk {
 Definition sk_new (c : tcfg) : tsk :=
   mkSk c (init_lg_cur c) (starting_theta (c_pbits c)) sl_empty 0 true.
 
-(* ThetaSketchBuilder::{lg_k, sampling_probability, build}: the two asserts *)
+(* ThetaSketchBuilder::{lg_k, sampling_probability, seed, build}: the three asserts *)
 Definition sk_build (c : tcfg) : outcome tsk :=
   let p := float_of_bits (c_pbits c) in
   if negb ((MIN_LG_K <=? c_lg_nom c) && (c_lg_nom c <=? MAX_LG_K)) then Stuck
   else if negb (PrimFloat.leb 0%float p && PrimFloat.leb p 1%float && PrimFloat.ltb 0%float p) then Stuck
+  else if c_seed_hash c =? 0 then Stuck      (* seed(): assert!(try_compute_seed_hash(seed).is_some()) *)
   else Ok (sk_new c).
 
 (* get_stride: (2 * ((key >> lg_size) & STRIDE_MASK) + 1) *)
